@@ -242,6 +242,12 @@ def main(argv=None):
     import contextlib
     import io
     chatter = io.StringIO()   # pyTME prints progress notes; keep the check's stdout for verdict lines
+    cov = None
+    if os.environ.get("PV_COVERAGE"):
+        # diagnostic only (tools/branch_report.py): which lines / branches of /repo's code this check executes in this process
+        import coverage
+        cov = coverage.Coverage(branch=True, data_file=None, include=[os.path.join(env.REPO, "tme", "*"), os.path.join(env.REPO, "scripts", "*")])
+        cov.start()
     try:
       with contextlib.redirect_stdout(chatter):
         if a.replay:
@@ -254,6 +260,14 @@ def main(argv=None):
             mod.run(ctx)
     except Exception:
         crashed = traceback.format_exc()
+    if cov is not None:
+        cov.stop()
+        try:
+            os.makedirs(os.path.join(env.VERIF, ".build"), exist_ok=True)
+            with contextlib.redirect_stdout(io.StringIO()):
+                cov.json_report(outfile=os.path.join(env.VERIF, ".build", f"coverage_{pid}.json"))
+        except Exception as e:  # noqa
+            ctx.note("coverage report failed: " + str(e))
     # search when something is broken but no failing input yet
     known = __import__("pv.findings", fromlist=["x"]).known_for(pid)
     unknown = [f for f in ctx.spec_failures if f["key"] not in known]
